@@ -27,6 +27,7 @@ class Tree(object):
         self.meta = meta or {}
         self.truncated = False
         self.leaves = 0
+        self.fins = {}               # leaf node -> final observation (Real.fin)
 
     def add(self, parent, step, choice=None):
         n = dict(step)
@@ -235,6 +236,7 @@ def explore(d, env=None, lang="yaql", form=0, tok="task", rng=None, inputs=None)
         chs = choices(r, bud, env)
         if not chs:
             tree.leaves += 1
+            tree.fins[node] = r.fin()
             continue
         if depth >= max_depth or len(tree.nodes) >= max_nodes:
             tree.truncated = True
